@@ -391,6 +391,8 @@ def body(args, cfg, pid, tier, seed, driver, work, cmds, t0):
             harness_broken = e
 
     findings = []   # dicts: signature, kind, case, ops, detail
+    known, fixed = load_known()
+    known_sigs0 = {k["signature"] for k in known if k["property"] == pid}
     diffs = 0
     traces_ok = 0
     out_hist = collections.Counter()
@@ -417,7 +419,9 @@ def body(args, cfg, pid, tier, seed, driver, work, cmds, t0):
                 seen.add(f["clause"])
                 findings.append({"signature": f"{pid}/{f['clause']}", "kind": "oracle", "clause": f["clause"], "case": c,
                                  "detail": f["msg"], "op": f["op"]})
-            if d is not None and not cf:
+            # a model/code divergence is reported unless an unlisted oracle failure of the same case already is
+            # (cases whose only oracle failures are known findings must still agree with the model)
+            if d is not None and all(f"{pid}/{f['clause']}" in known_sigs0 for f in cf):
                 kind = c["ops"][d].split(" ")[0] if d < len(c["ops"]) else "len"
                 findings.append({"signature": f"{pid}/corr/{kind}", "kind": "diff", "clause": None, "case": c,
                                  "detail": f"op {d} `{c['ops'][d] if d < len(c['ops']) else ''}`: impl `{a[d] if d < len(a) else '<missing>'}` model `{b[d] if d < len(b) else '<missing>'}`", "op": d})
@@ -451,7 +455,6 @@ def body(args, cfg, pid, tier, seed, driver, work, cmds, t0):
         search_note = f"failing-input search ran {extra_evals} extra cases"
 
     # ---- group by signature, shrink one representative each
-    known, fixed = load_known()
     by_sig = collections.OrderedDict()
     for f in findings:
         by_sig.setdefault(f["signature"], []).append(f)
